@@ -9,7 +9,7 @@ Import ListNotations.
 Open Scope nat_scope.
 
 Section Inv.
-Context {D SY : Type} (dops : dict_ops D) (sops : syl_ops SY) (conv : conv_fn).
+Context {D SY : Type} (dops : dict_ops D) (sops : syl_ops SY) (conv : conv_fn D).
 
 (* dictionaries reachable by the editor never hold an entry for the empty syllable
    sequence (part of the properties' "well-formed dictionary") *)
